@@ -257,7 +257,15 @@ func VerifCompileEncoded(fn *bigslice.FuncValue, machineCombiners bool, args ...
 	if err != nil {
 		return nil, false, err
 	}
+	// as Session.run does after compile (tie: C08 T2 `env_frozen_in_task_copies`, and the real sessions of C08's result
+	// programs, whose tasks are inspected by VerifTasksEnvWritable)
 	inv0.Env.Freeze()
+	_ = iterTasks(tasks0, func(task *Task) error {
+		if task.Invocation.Env.IsWritable() {
+			task.Invocation.Env.Freeze()
+		}
+		return nil
+	})
 	shipped := inv0
 	if len(tasks0) > 0 {
 		shipped = tasks0[0].Invocation
@@ -279,6 +287,19 @@ func VerifCompileEncoded(fn *bigslice.FuncValue, machineCombiners bool, args ...
 }
 
 func VerifResultTasks(r *Result) []*Task { return r.tasks }
+
+// VerifTasksEnvWritable tells whether any task of the result's graph carries an invocation whose compile environment may
+// still be written (what a worker would receive): after Session.Run none may.
+func VerifTasksEnvWritable(r *Result) bool {
+	w := false
+	_ = iterTasks(r.tasks, func(task *Task) error {
+		if task.Invocation.Env.IsWritable() {
+			w = true
+		}
+		return nil
+	})
+	return w
+}
 
 // VerifInvNames maps invocation indices to stable tags in dumps ("X" for the compiled invocation,
 // "R0", "R1" for the invocations whose results are its arguments).
